@@ -117,6 +117,9 @@ C01(r) ==
    \cup (IF Ran(r) /\ Wrong(r) /\ ~r.end.verdict THEN {"C01.false_green"} ELSE {})
    \cup (IF Ran(r) /\ ~Wrong(r) /\ r.end.verdict THEN {"C01.false_red"} ELSE {})
 
+\* process exit code of `python -m behave` for the same case (r.events = events recorded by the child process)
+C01Exit(r) == IF (r.exit # 0) # Wrong(r) THEN {"C01.exit_code"} ELSE {}
+
 \* ======================================================================= C02
 MapStatus(r, s, p) == LET o == StepsOf(r, s)[p].o IN
    IF LookupFails(r, s, p) THEN "error"
@@ -381,6 +384,7 @@ C13r(r) == C13rVis(r) \cup C13rCl(r)
 ClausesX(r) == C01(r) \cup C02(r) \cup C03(r) \cup C09(r) \cup C12(r) \cup C13r(r) \cup C18(r) \cup C18Marks(r)
 Clauses(r0) == LET r == Enrich(r0) IN ClausesX(r) \cup C12Pair(r) \cup C18Log(r0)
 PairClauses(r0) == C12Pair(Enrich(r0))
+ExitClauses(r0) == C01Exit([Enrich(r0) EXCEPT !.base = r0.base] @@ [exit |-> r0.exit])
 \* on behaviours of the specification itself (no probes of the driver's context instrumentation)
 ClausesMCX(r) == C01(r) \cup C02(r) \cup C03(r) \cup C09(r) \cup C12(r) \cup C13rCl(r) \cup C18(r) \cup C18Marks(r)
 ClausesMC(r0) == ClausesMCX(Enrich(r0))
